@@ -403,6 +403,10 @@ func corpusIPP(r *Rng) []binDialogue {
 		// Get-Printer-Attributes WITHOUT the end-of-attributes tag.  Hazard: ippMsg.decode (message.go) loops
 		// until it sees tag 0x03 and the decoder returns 0 at the end of the input instead of failing.
 		{post(cbIPPRequest(0x000b, r.Range(1, 9999), opGroup(cbIPPAttr(0x44, "requested-attributes", "all"))))},
+		// bodies that end exactly behind a group delimiter tag: the bare header plus one delimiter, and a complete
+		// operation group followed by the delimiter of a group that never comes
+		{post(cbIPPRequest(0x000b, r.Range(1, 9999), []byte{byte(r.Range(1, 5))}))},
+		{post(cbIPPRequest(0x0002, r.Range(1, 9999), opGroup(), []byte{byte(r.Pick2(2, 4))}))},
 	}
 }
 
